@@ -208,7 +208,7 @@ func (g g2) genForm(form string) gtab.Subtable {
 			}
 		}
 		return &gtab.SeqContext1{Cov: covOf(cov), Rules: rules}
-	case "gsub5.2":
+	case "gsub5.2", "gpos7.2":
 		k := r.Range(1, 3)
 		cls := g.classes(k)
 		rules := make([][]*gtab.ClassSeqRule, k+1)
@@ -224,10 +224,10 @@ func (g g2) genForm(form string) gtab.Subtable {
 			rules[r.Intn(k+1)] = []*gtab.ClassSeqRule{{Input: nil, Actions: g.actions(1)}}
 		}
 		return &gtab.SeqContext2{Cov: covOf(g.cov()), Input: cls, Rules: rules}
-	case "gsub5.3":
+	case "gsub5.3", "gpos7.3":
 		in := g.sets(1, 3)
 		return &gtab.SeqContext3{Input: in, Actions: g.actions(len(in))}
-	case "gsub6.1":
+	case "gsub6.1", "gpos8.1":
 		cov := g.cov()
 		rules := make([][]*gtab.ChainedSeqRule, len(cov))
 		for i := range rules {
@@ -237,7 +237,7 @@ func (g g2) genForm(form string) gtab.Subtable {
 			}
 		}
 		return &gtab.ChainedSeqContext1{Cov: covOf(cov), Rules: rules}
-	case "gsub6.2":
+	case "gsub6.2", "gpos8.2":
 		k := r.Range(1, 2)
 		kb, kl := r.Range(1, 2), r.Range(1, 2)
 		rules := make([][]*gtab.ChainedClassSeqRule, k+1)
@@ -254,7 +254,7 @@ func (g g2) genForm(form string) gtab.Subtable {
 			rules[0] = []*gtab.ChainedClassSeqRule{{Actions: g.actions(1)}}
 		}
 		return &gtab.ChainedSeqContext2{Cov: covOf(g.cov()), Backtrack: g.classes(kb), Input: g.classes(k), Lookahead: g.classes(kl), Rules: rules}
-	case "gsub6.3":
+	case "gsub6.3", "gpos8.3":
 		in := g.sets(1, 2)
 		return &gtab.ChainedSeqContext3{Backtrack: g.sets(0, 2), Input: in, Lookahead: g.sets(0, 2), Actions: g.actions(len(in))}
 	case "gpos1.1", "gpos1.1dy":
@@ -324,7 +324,8 @@ func (g g2) genForm(form string) gtab.Subtable {
 }
 
 var dslForms2 = []string{"gsub5.1", "gsub5.2", "gsub5.3", "gsub6.1", "gsub6.2", "gsub6.3",
-	"gpos1.1", "gpos1.2", "gpos2.1", "gpos2.2", "gpos3.1", "gpos4.1"}
+	"gpos1.1", "gpos1.2", "gpos2.1", "gpos2.2", "gpos3.1", "gpos4.1",
+	"gpos7.1", "gpos7.2", "gpos7.3", "gpos8.1", "gpos8.2", "gpos8.3"}
 
 func formType(form string) (isGpos bool, typ uint16) {
 	isGpos = strings.HasPrefix(form, "gpos")
